@@ -28,6 +28,7 @@ type Obligation struct {
 	Cover   bool // a cover query: expected SAT
 	Src     string
 	Reveal  []string
+	Bounded string // non-empty: obligation of a bounded stand-in, never counted as proved
 	// result
 	Status string // proved, failed, unknown
 	Solver string
@@ -57,6 +58,8 @@ type Frame struct {
 	params   map[string]Value // entry values
 	parent   *Frame
 	isSpec   bool
+	unrollAll int // >0: every loop executed in this frame is unrolled that many times
+	liveCells map[ssa.Value]*Cell
 }
 
 type deferRec struct {
@@ -112,6 +115,7 @@ func (ex *Exec) addObl(kind, detail string, pos token.Pos, st *State, goal *Term
 	if ex.contract != nil {
 		o.Props = ex.contract.Props
 		o.Reveal = ex.contract.Reveal
+		o.Bounded = ex.contract.Bounded
 	}
 	ex.obls = append(ex.obls, o)
 }
@@ -141,6 +145,7 @@ func newFrame(fn *ssa.Function, parent *Frame) *Frame {
 	if parent != nil {
 		fr.depth = parent.depth + 1
 		fr.isSpec = parent.isSpec
+		fr.unrollAll = parent.unrollAll
 	}
 	return fr
 }
@@ -156,7 +161,7 @@ func (ex *Exec) runFunction(fr *Frame, st *State, args []Value) (Value, *State) 
 		fr.regs[p] = args[i]
 		fr.params[p.Name()] = args[i]
 	}
-	rets := ex.runRegion(fr, st, fn.Blocks[0], nil, nil)
+	rets := ex.runRegion(fr, st, fn.Blocks[0], nil, nil, nil)
 	return mergeReturns(fn, rets)
 }
 
@@ -271,7 +276,12 @@ func infoOf(fn *ssa.Function) *fnInfo {
 
 // runRegion executes blocks starting at start. If allowed != nil only blocks in it are
 // executed and back edges to backTo are collected into *backs instead of being checked.
-func (ex *Exec) runRegion(fr *Frame, st0 *State, start *ssa.BasicBlock, allowed map[*ssa.BasicBlock]bool, backs *[]*State) []retRec {
+type edgeState struct {
+	to *ssa.BasicBlock
+	st *State
+}
+
+func (ex *Exec) runRegion(fr *Frame, st0 *State, start *ssa.BasicBlock, allowed map[*ssa.BasicBlock]bool, backs *[]*State, exits *[]edgeState) []retRec {
 	fi := infoOf(fr.fn)
 	in := map[*ssa.BasicBlock][]*State{}
 	in[start] = []*State{st0}
@@ -296,6 +306,12 @@ func (ex *Exec) runRegion(fr *Frame, st0 *State, start *ssa.BasicBlock, allowed 
 			continue
 		}
 		st = st.clone()
+		// registers that left an unrolled loop on several iterations travel in cells
+		for v, c := range fr.liveCells {
+			if cv, ok := st.Cells[c]; ok {
+				fr.regs[v] = cv
+			}
+		}
 		// phis
 		for _, ins := range b.Instrs {
 			phi, ok := ins.(*ssa.Phi)
@@ -310,6 +326,20 @@ func (ex *Exec) runRegion(fr *Frame, st0 *State, start *ssa.BasicBlock, allowed 
 		}
 		isDryHead := allowed != nil && b == start
 		if li := fi.loops[b]; li != nil && !isDryHead {
+			if k := ex.unrollCount(fr, li); k > 0 {
+				exs, rs := ex.unrollLoop(fr, st, li, k)
+				rets = append(rets, rs...)
+				for _, e := range exs {
+					if allowed != nil && !allowed[e.to] {
+						if exits != nil {
+							*exits = append(*exits, e)
+						}
+						continue
+					}
+					in[e.to] = append(in[e.to], e.st)
+				}
+				continue
+			}
 			st = ex.enterLoop(fr, st, li)
 			if st == nil {
 				continue
@@ -354,6 +384,22 @@ func (ex *Exec) runRegion(fr *Frame, st0 *State, start *ssa.BasicBlock, allowed 
 				return
 			}
 			if allowed != nil && !allowed[to] {
+				if exits != nil {
+					for _, v := range liveOut(fr.fn, allowed) {
+						if rv, ok := fr.regs[v]; ok {
+							if fr.liveCells == nil {
+								fr.liveCells = map[ssa.Value]*Cell{}
+							}
+							c := fr.liveCells[v]
+							if c == nil {
+								c = newCell("live."+v.Name(), v.Type())
+								fr.liveCells[v] = c
+							}
+							s.Cells[c] = rv
+						}
+					}
+					*exits = append(*exits, edgeState{to, s})
+				}
 				return
 			}
 			in[to] = append(in[to], s)
@@ -377,6 +423,65 @@ func (ex *Exec) runRegion(fr *Frame, st0 *State, start *ssa.BasicBlock, allowed 
 // ---------------------------------------------------------------------------
 // loops
 
+// liveOut lists the SSA values defined inside the region that are used outside it.
+func liveOut(fn *ssa.Function, body map[*ssa.BasicBlock]bool) []ssa.Value {
+	var out []ssa.Value
+	for b := range body {
+		for _, ins := range b.Instrs {
+			v, ok := ins.(ssa.Value)
+			if !ok || v.Referrers() == nil {
+				continue
+			}
+			for _, r := range *v.Referrers() {
+				if !body[r.Block()] {
+					out = append(out, v)
+					break
+				}
+			}
+		}
+	}
+	return out
+}
+
+func (ex *Exec) unrollCount(fr *Frame, li *loopInfo) int {
+	if ls := ex.loopContract(fr, li); ls != nil && ls.Unroll > 0 && fr.unrollAll == 0 {
+		return ls.Unroll
+	}
+	return fr.unrollAll
+}
+
+// unrollLoop executes the loop body up to k times; reaching the head a (k+1)-th time is an
+// obligation (unwinding assertion), so a discharged unrolling is complete, not bounded.
+func (ex *Exec) unrollLoop(fr *Frame, st *State, li *loopInfo, k int) ([]edgeState, []retRec) {
+	var exits []edgeState
+	var rets []retRec
+	cur := st
+	ord := infoOf(fr.fn).ord[li.head]
+	for it := 0; ; it++ {
+		if cur == nil || cur.G == False {
+			break
+		}
+		var backs []*State
+		rs := ex.runRegion(fr, cur, li.head, li.body, &backs, &exits)
+		rets = append(rets, rs...)
+		if it == k {
+			// the body has run k times; the head may be evaluated once more but must exit
+			saved := ex.noObl
+			ex.noObl = 0
+			for _, b := range backs {
+				ex.addObl("unwind", fmt.Sprintf("%s.loop%d.%d", fnKey(fr.fn), ord, k), li.head.Instrs[0].Pos(), b, False, nil)
+			}
+			ex.noObl = saved
+			break
+		}
+		cur = nil
+		for _, b := range backs {
+			cur = mergeStates(cur, b)
+		}
+	}
+	return exits, rets
+}
+
 func (ex *Exec) loopContract(fr *Frame, li *loopInfo) *LoopSpec {
 	c := ex.P.contractOf(fr.fn)
 	if c == nil {
@@ -385,7 +490,45 @@ func (ex *Exec) loopContract(fr *Frame, li *loopInfo) *LoopSpec {
 	return c.Loops[infoOf(fr.fn).ord[li.head]]
 }
 
+// rangeInvariant is the implicit invariant of a `for range slice` loop: the hidden index
+// stays in [-1, len) (it is -1 before the first iteration and len-1 after the last).
+func (ex *Exec) rangeInvariant(fr *Frame, st *State, li *loopInfo) *Term {
+	if li.head.Comment != "rangeindex.loop" || len(li.head.Instrs) < 4 {
+		return True
+	}
+	ld, ok1 := li.head.Instrs[0].(*ssa.UnOp)
+	cmp, ok2 := li.head.Instrs[3].(*ssa.BinOp)
+	if !ok1 || !ok2 || cmp.Op != token.LSS {
+		return True
+	}
+	al, ok := ld.X.(*ssa.Alloc)
+	if !ok {
+		return True
+	}
+	c := fr.cells[al]
+	if c == nil {
+		return True
+	}
+	iv, ok := st.Cells[c].(Sc)
+	if !ok {
+		return True
+	}
+	lv, ok := fr.regs[cmp.Y].(Sc)
+	if !ok {
+		if cv, isC := cmp.Y.(*ssa.Const); isC {
+			lv = ex.constVal(cv).(Sc)
+		} else {
+			return True
+		}
+	}
+	m1 := BVi(-1, 64)
+	return And(SLe(m1, iv.T), Or(SLt(iv.T, lv.T), Eq(iv.T, m1)))
+}
+
 func (ex *Exec) checkInvariant(fr *Frame, st *State, li *loopInfo, kind string) {
+	if ri := ex.rangeInvariant(fr, st, li); ri != True {
+		ex.addOblSk(kind, fmt.Sprintf("loop%d.range", infoOf(fr.fn).ord[li.head]), li.head.Instrs[0].Pos(), st, ri, nil, "implicit: -1 <= rangeindex < len")
+	}
 	ls := ex.loopContract(fr, li)
 	if ls == nil {
 		return
@@ -414,9 +557,6 @@ func (ex *Exec) enterLoop(fr *Frame, st *State, li *loopInfo) *State {
 	ls := ex.loopContract(fr, li)
 	fi := infoOf(fr.fn)
 	ord := fi.ord[li.head]
-	if ls != nil && ls.Unroll > 0 {
-		unsup("loop unrolling not implemented")
-	}
 	// 1. invariant on entry
 	ex.checkInvariant(fr, st, li, "inv-entry")
 	// 2. discover what the body modifies: dry run from a fully havocked state
@@ -445,7 +585,7 @@ func (ex *Exec) enterLoop(fr *Frame, st *State, li *loopInfo) *State {
 			ex.lazy = ex.lazy[:savedLazy]
 		}()
 		probe.G = True
-		ex.runRegion(fr, probe, li.head, li.body, &backs)
+		ex.runRegion(fr, probe, li.head, li.body, &backs, nil)
 	}()
 	modCells := map[*Cell]bool{}
 	modHeap := map[string]bool{}
@@ -494,6 +634,7 @@ func (ex *Exec) enterLoop(fr *Frame, st *State, li *loopInfo) *State {
 		out.Alloc = na
 	}
 	// 4. assume the invariant
+	out.assume(ex.rangeInvariant(fr, out, li))
 	if ls != nil {
 		for _, inv := range ls.Invariants {
 			env := ex.specEnv(fr, out, ex.entryOf(fr), true)
@@ -791,7 +932,11 @@ func (ex *Exec) execAlloc(fr *Frame, st *State, x *ssa.Alloc) {
 		return
 	}
 	name := x.Comment
-	c := newCell(name, et)
+	// a non-escaping local re-declared on every loop iteration is the same storage each time
+	c := fr.cells[x]
+	if c == nil {
+		c = newCell(name, et)
+	}
 	fr.cells[x] = c
 	if name != "" {
 		fr.named[name] = c
